@@ -9,7 +9,10 @@ import (
 	"github.com/robertkrimen/otto"
 	"github.com/robertkrimen/otto/parser"
 
+	"math/rand"
+
 	"verif/harness/internal/c01"
+	"verif/harness/internal/c17/scen"
 )
 
 // Unit is the work of one runtime in a concurrent run: programs executed one
@@ -40,6 +43,7 @@ func hostH(call otto.FunctionCall) otto.Value {
 type Workload struct {
 	Units    []*Unit
 	template *otto.Otto
+	tmplN    int // number of history programs already run on the template
 	scripts  map[string]*otto.Script
 	progs    map[string]any
 }
@@ -49,9 +53,30 @@ type Workload struct {
 func BuildWorkload(seed int64, n int, reuse int) *Workload {
 	g := c01.NewGen(seed)
 	g.MaxDepth, g.MaxTop = 2, 4
+	rng := rand.New(rand.NewSource(seed))
 	w := &Workload{scripts: map[string]*otto.Script{}, progs: map[string]any{}}
-	shared := g.Program()
-	sharedSrc := c01.RenderProgram(shared)
+	// three shared compiled scripts (programs with the targeted scenario families: arguments
+	// objects, closures, with/eval ...): every unit of a shared kind runs one of them
+	var shared [][]c01.N
+	var sharedSrc []string
+	for i := 0; i < 3; i++ {
+		p := g.ScenarioProgram(2 + i)
+		shared = append(shared, p)
+		sharedSrc = append(sharedSrc, c01.RenderProgram(p))
+	}
+	// the template of the copy units has a history that builds shared-looking structure
+	// (bound functions with object arguments, closures, accessors, arguments objects ...)
+	h, _, _ := scen.Scenario(rng)
+	tmplProg := h
+	tmplSrc := c01.RenderProgram(tmplProg)
+	w.template = otto.New()
+	w.template.Set("H", hostH)
+	var tlog [][]any
+	logs.Store(w.template, &tlog)
+	tv, terr := w.template.Run(tmplSrc)
+	tmplObs := c01.MakeObs(tlog, tv, terr)
+	logs.Delete(w.template)
+	w.tmplN = 1
 	kinds := []string{"fresh", "copy", "shared-script", "shared-program"}
 	for i := 0; i < n; i++ {
 		u := &Unit{ID: i + 1, Kind: kinds[i%len(kinds)]}
@@ -59,33 +84,40 @@ func BuildWorkload(seed int64, n int, reuse int) *Workload {
 		if reuse > 1 {
 			k = 1 + i%reuse
 		}
-		for j := 0; j < k; j++ {
-			var p []c01.N
-			if u.Kind == "shared-script" || u.Kind == "shared-program" {
-				p = shared
-			} else if j == 0 {
-				p = g.Program()
-			} else {
-				p = u.Progs[0] // the same source again on the same runtime
+		switch u.Kind {
+		case "copy":
+			// history (already run on the template) + a mutation and an observation of the same family
+			_, m, q := scen.Scenario(rand.New(rand.NewSource(seed))) // same family as the template's history
+			_, m2, _ := scen.Scenario(rand.New(rand.NewSource(seed)))
+			if i%8 >= 4 {
+				m = append(m, m2...)
 			}
-			u.Progs = append(u.Progs, p)
-			if u.Kind == "shared-script" || u.Kind == "shared-program" {
-				u.srcs = append(u.srcs, sharedSrc)
-			} else {
+			u.Progs = [][]c01.N{tmplProg, m, q}
+			u.srcs = []string{tmplSrc, c01.RenderProgram(m), c01.RenderProgram(q)}
+			u.Obs = []c01.Obs{tmplObs}
+		case "shared-script", "shared-program":
+			j := (i / len(kinds)) % len(shared)
+			for x := 0; x < k; x++ {
+				u.Progs = append(u.Progs, shared[j])
+				u.srcs = append(u.srcs, sharedSrc[j])
+			}
+		default:
+			p := g.Program()
+			for x := 0; x < k; x++ {
+				u.Progs = append(u.Progs, p)
 				u.srcs = append(u.srcs, c01.RenderProgram(p))
 			}
 		}
 		w.Units = append(w.Units, u)
 	}
-	w.template = otto.New()
-	w.template.Set("H", hostH)
 	vm := otto.New()
-	sc, err := vm.Compile("shared.js", sharedSrc)
-	if err == nil {
-		w.scripts[sharedSrc] = sc
-	}
-	if pr, err := parser.ParseFile(nil, "shared.js", sharedSrc, 0); err == nil {
-		w.progs[sharedSrc] = pr
+	for _, src := range sharedSrc {
+		if sc, err := vm.Compile("shared.js", src); err == nil {
+			w.scripts[src] = sc
+		}
+		if pr, err := parser.ParseFile(nil, "shared.js", src, 0); err == nil {
+			w.progs[src] = pr
+		}
 	}
 	return w
 }
@@ -113,8 +145,14 @@ func (w *Workload) RunUnit(u *Unit, vm *otto.Otto) (err error) {
 			err = fmt.Errorf("GO PANIC: %v", p)
 		}
 	}()
-	u.Obs = nil
-	for _, src := range u.srcs {
+	start := 0
+	if u.Kind == "copy" {
+		start = w.tmplN // the history ran on the template before the copy was taken
+		u.Obs = u.Obs[:start]
+	} else {
+		u.Obs = nil
+	}
+	for _, src := range u.srcs[start:] {
 		log = nil
 		var v otto.Value
 		var e error
